@@ -95,11 +95,6 @@ func runAnalysisProp(prop string, r *Rng, n int, tier string) {
 		q := genQStmt(r, s, i, risky)
 		schema := s.DDL()
 		switch prop {
-		case "C10":
-			// single-name corruptions of a valid statement, and schema histories that remove the name
-			if i%2 == 1 {
-				q, schema = corruptStmt(r, s, q, schema)
-			}
 		case "C07":
 			if i%2 == 0 {
 				q = genStarStmt(r, s, i)
@@ -127,6 +122,14 @@ func runAnalysisProp(prop string, r *Rng, n int, tier string) {
 			q, ddl = genExtraStmt(r, s, i)
 			schema += ddl
 			mustModel = ""
+		}
+		if prop == "C10" && i%2 == 1 {
+			// single-name corruptions of the (valid) statement chosen above — plain, wide or extra shape, so that
+			// nested query levels are corrupted as often as outer ones — or a migration that removes the name
+			if i%8 == 7 {
+				q = genShapeStmt(r, s, i)
+			}
+			q, schema = corruptStmt(r, s, q, schema)
 		}
 		var gone [][2]string
 		if (prop == "C10" || prop == "C05") && engine == "postgresql" && i%7 == 3 {
